@@ -73,6 +73,18 @@ __CPROVER_ensures((g_added_at_tail && !g_added_before_head) ==> (g_added_type ==
 __CPROVER_ensures((g_added_before_head && !g_added_at_tail) ==> (g_added_type == CT_NEWLINE_V && g_added_nl_count == SOFMIN))
 ;
 
+/* the same function on a list of exactly one chunk (head == tail, -DSINGLE_CHUNK_LIST): the chunk is deleted at most once and never
+ * touched after its deletion (the list model asserts it), and it is deleted exactly when one of the two ends asks for removal */
+void newlines_eat_start_end_single_contract(void)
+__CPROVER_requires(OPT_RANGE_nl_start_of_file && OPT_RANGE_nl_end_of_file && OPT_RANGE_nl_start_of_file_min && OPT_RANGE_nl_end_of_file_min)
+__CPROVER_requires(!Chunk_m_nullChunk(HEADC) && Chunk_m_nullChunk(NULLC) && CPD(changes) < 1000000)
+__CPROVER_requires(!g_deleted_head && !g_deleted_tail && !g_added_before_head && !g_added_at_tail)
+__CPROVER_assigns(Chunk_m_nlCount(HEADC), CPD(changes), g_deleted_head, g_added_before_head, g_added_at_tail, g_added_nl_count, g_added_type)
+__CPROVER_ensures(CPD(frag_cols) != 0 ==> (!g_deleted_head && Chunk_m_nlCount(HEADC) == OLD_HN))
+__CPROVER_ensures((CPD(frag_cols) == 0 && H_IS_NL && (SOF == IARF_REMOVE_B || EOFO == IARF_REMOVE_B)) ==> g_deleted_head)
+__CPROVER_ensures((!H_IS_NL || (SOF != IARF_REMOVE_B && EOFO != IARF_REMOVE_B)) ==> !g_deleted_head)
+;
+
 /* too_big_for_nl_max: returns normally only if no blank-line count option exceeds nl_max (set B generated from the
  * option documentation, see tools/gen.py); otherwise names the options and exits with EX_CONFIG */
 void exit_contract(int status)
